@@ -61,3 +61,46 @@ Example C11_nonvacuous :
   counts_ok [3; 1; 0; 2] 3 /\ 0 < zsum [3; 1; 0; 2] /\ 3 * zsum [3; 1; 0; 2] < 2 ^ 52 /\
   isim_f [3; 1; 0; 2] 3 = (4 / 8)%float.
 Proof. vm_compute. repeat split; try discriminate; repeat constructor; discriminate. Qed.
+
+(* ---- the whole range n * sum k < 2^63 (Proofs/IsimBound.v) ----
+   Below 2^52 the value is the correctly rounded exact rational (C11_exact).  Above, the uint64 -> double
+   conversions and the two additions round; what holds there is a RELATIVE ERROR BOUND of 21 * 2^-53 (the
+   subtraction cannot cancel: n * sum k <= 4 * (pairs11 + pairs10)), and "correctly rounded" is false: the
+   witness below (one column, n * k just above 2^53) is more than 6 units of 2^-53 away.  The property's
+   "equals the exact rational definition" is therefore proved as: correctly rounded below 2^52, within
+   21 * 2^-53 relative up to 2^63. *)
+From BB Require Import Proofs.IsimBound.
+Theorem C11_uint64_to_double_is_rne : forall z, 0 <= z < 2 ^ 64 ->
+  is_finite (Prim2B (Z2f z)) = true /\
+  B2R (Prim2B (Z2f z)) = rnd64 (IZR z) /\
+  Bsign (Prim2B (Z2f z)) = false.
+Proof. exact Z2f_spec_full. Qed.
+Theorem C11_no_cancellation : forall ks n,
+  2 <= n -> counts_ok ks n -> 0 < zsum ks ->
+  n * zsum ks < 2 ^ 63 ->
+  zdot ks ks <= n * zsum ks /\
+  n * zsum ks <= 4 * (pairs11 ks + pairs10 ks n).
+Proof. exact isim_no_cancellation. Qed.
+Theorem C11_error_bound : forall ks n,
+  2 <= n -> counts_ok ks n -> 0 < zsum ks ->
+  n * zsum ks < 2 ^ 63 -> 0 < pairs11 ks + pairs10 ks n ->
+  let E := (IZR (pairs11 ks) / IZR (pairs11 ks + pairs10 ks n))%R in
+  is_finite (Prim2B (isim_f ks n)) = true /\
+  (Rabs (B2R (Prim2B (isim_f ks n)) - E) <= 21 * bpow radix2 (-53) * E)%R.
+Proof. exact isim_bound. Qed.
+Theorem C11_error_vs_rounded : forall ks n,
+  2 <= n -> counts_ok ks n -> 0 < zsum ks ->
+  n * zsum ks < 2 ^ 63 ->
+  let E := (IZR (pairs11 ks) / IZR (pairs11 ks + pairs10 ks n))%R in
+  (Rabs (B2R (Prim2B (isim_f ks n)) - rnd64 E) <= 22 * bpow radix2 (-53) * E)%R.
+Proof. exact isim_vs_rounded. Qed.
+Theorem C11_not_correctly_rounded_above_2p52_refuted : let ks := [95200339] in let n := 95465801 in
+  let E := (IZR (pairs11 ks) / IZR (pairs11 ks + pairs10 ks n))%R in
+  let r := B2R (Prim2B (isim_f ks n)) in
+  (2 <= n /\ counts_ok ks n /\ 0 < zsum ks /\ 2 ^ 52 <= n * zsum ks < 2 ^ 63) /\
+  r = (IZR 8957245476244635 * bpow radix2 (-53))%R /\
+  (/ 2 <= r < 1)%R /\
+  (r + 6 * bpow radix2 (-53) < E)%R /\
+  (r + 6 * bpow radix2 (-53) <= rnd64 E)%R /\
+  r <> rnd64 E.
+Proof. exact isim_not_within_4ulp. Qed.
